@@ -108,7 +108,8 @@ Inductive call :=
 | KExecute (li : nat) (nil_runnable : bool) (n : Z) (fails : bool)
 | KStop (expired : bool)                      (* Engine.Stop(ctx) *)
 | KPkgStop (known : bool) (expired : bool)    (* gnet.Stop(ctx, protoAddr) *)
-| KCliEnroll (li : nat) (fails : bool).       (* Client.Dial / Client.Enroll *)
+| KCliEnroll (li : nat) (fails : bool)        (* Client.Dial / Client.Enroll *)
+| KCliStop.                                   (* Client.Stop on a client that has been stopped *)
 
 Inductive ioev :=
 | IoOpen (h : hres)                  (* el.accept on the loop's own listener *)
@@ -573,8 +574,16 @@ Definition do_call (g : nat) (s : estate) (k : call) : option (estate * list evt
         if e_insd s then ret (set_inall s1 false) RInShutdown
         else Some (put_user s1 g (UStopPoll expired true), [])
       else ret s RInShutdown
+  | KCliStop =>
+      (* the first Client.Stop is the R thread's (CClientStop); a later one finds inShutdown set and is refused *)
+      if c_client (e_cfg s) && e_insd s then ret s RInShutdown else None
   | KCliEnroll li fails =>
-      if c_client (e_cfg s) && e_started s then
+      if c_client (e_cfg s) && negb (e_started s) then
+        (* no event loop registered yet: the client was never started *)
+        (if fails then None else ret s REmpty)
+      else if c_client (e_cfg s) && e_insd s then
+        (if fails then None else ret s RInShutdown)
+      else if c_client (e_cfg s) && e_started s then
         match get_loop s li with
         | None => None
         | Some l =>
@@ -1086,6 +1095,8 @@ Definition call_of (r : rstate) (g : nat) (fn : string) (a : list arg) : option 
     match a with [e] => Some (KStop (bool_of e), r) | _ => None end
   else if sym_eqb fn "pkgstop" then
     match a with [k; e] => Some (KPkgStop (bool_of k) (bool_of e), r) | _ => None end
+  else if sym_eqb fn "clistop" then
+    match a with [] => Some (KCliStop, r) | _ => None end
   else if sym_eqb fn "dial" then
     match a with
     | [li; x; y; z] =>
